@@ -642,7 +642,7 @@ func Run(cfg hx.Config) (*hx.Meta, error) {
 	nre, maxOuter := 24, 8
 	if cfg.Tier == "thorough" {
 		perCell, extra, nhist, maxLen, poolMax, batchSize = 4, 12, 800, 30, 20, 20
-		nre, maxOuter = 400, 16
+		nre, maxOuter = 300, 16
 	}
 	reCorpus := corpusReentrant(cfg.Corpus, meta)
 
